@@ -22,9 +22,9 @@ static size_t ref_der(const struct tval *v, uint8_t *out, size_t cap) {
     uint8_t body[16]; struct rbuf b = { body, 0, sizeof(body) };
     der_int_tagged(&b, CL_CTX, 0, v->a);              /* X.690 10.3: canonical tag order */
     der_bool_tagged(&b, CL_CTX, 1, v->b);
-    if(v->has_c) { der_tag(&b, CL_CTX, 2); der_len(&b, 0); }
+    if(v->has_c) { der_tag(&b, CL_CTX, 2); x_len(&b, 0); }
     struct rbuf o = { out, 0, cap };
-    der_tag(&o, CL_UNIV | CONSTRUCTED, 17); der_len(&o, b.n); rb_puts(&o, body, b.n);
+    x_constructed(&o, CL_UNIV, 17, body, b.n);
     return o.n;
 }
 static size_t ref_uper(const struct tval *v, uint8_t *out, size_t cap) {
@@ -35,3 +35,21 @@ static size_t ref_uper(const struct tval *v, uint8_t *out, size_t cap) {
     return bw_finish(&w);
 }
 static size_t ref_oer(const struct tval *v, uint8_t *out, size_t cap) { (void)v; (void)out; (void)cap; return 0; }
+
+/* ---- C03: SET components in any order (X.690 8.11) ---- */
+#define TV_HAS_VARIANT 1
+struct tvariant { uint8_t perm; };
+static int tvar_valid(const struct tvariant *x) { return x->perm < 6; }
+static size_t ref_ber_variant(const struct tval *v, const struct tvariant *x, uint8_t *out, size_t cap) {
+    static const uint8_t P[6][3] = { {0,1,2}, {0,2,1}, {1,0,2}, {1,2,0}, {2,0,1}, {2,1,0} };
+    uint8_t body[24]; struct rbuf b = { body, 0, sizeof(body) };
+    for(int i = 0; i < 3; i++) {
+        int m = P[x->perm][i];
+        if(m == 0) der_int_tagged(&b, CL_CTX, 0, v->a);
+        else if(m == 1) der_bool_tagged(&b, CL_CTX, 1, v->b);
+        else if(v->has_c) { der_tag(&b, CL_CTX, 2); x_len(&b, 0); }
+    }
+    struct rbuf o = { out, 0, cap };
+    x_constructed(&o, CL_UNIV, 17, body, b.n);
+    return o.n;
+}
